@@ -53,6 +53,11 @@ CHECKS = {
          "Every ordered sequence of <=2-4 definition calls over 3 names (explicit and default slot per name; factory shapes const/fail/nil/requires X/tolerates X/injects X/injects ?X for every target incl. self, so every cyclic graph on <=3 names occurs) is followed by every sequence of <=1-3 requests (Get, InjectTo with required and optional tags, Keys, late definitions). Outcome class, instance identity, invocation counters and recursion depth must equal the reference (memoised resolver, explicit beats default, frozen after first resolution, cycle = error).",
          "Duplicate definitions of one slot are unspecified by the statement and not generated; error texts are not compared.",
          "DESIGN.md 3/C10"),
+ "C11": ("model_checking",
+         "program enumeration (scope trees x task bodies x failing listeners x late-failing tasks) x preemption-bounded exhaustive schedule exploration with a happens-before state cache, on the real scope/eventscope/contextscope code",
+         "85 programs over 5 scope trees (root; shared child; isolated child; child+grandchild; shared+isolated) with one closer thread per scope and one thread per task; recorders on all 11 events on the root (twice) and on every child. Every schedule within the bound (2-scope trees: 1 quick / 2 thorough preemptions; 3-scope trees: 0 / 1) is executed; the oracle checks on the global-step event log: event order and exactly-once, commit xor rollback where the error source is ordered, waiting for tasks and children, Close result, loud second Close without events, listener order, shared vs isolated failure, parent stop reaching the isolated child, no panic, no deadlock.",
+         "Commit/rollback and the Close result are only judged where the error source cannot race with the decision; bounds as reported; HB-cache soundness relies on harness observations being recorded as dependent trace events.",
+         "DESIGN.md 3/C11"),
  "C12": ("model_checking",
          "program enumeration x stateless preemption-bounded DFS over all schedules of the real contextscope/scope code under the controlled scheduler, with a vector-clock happens-before race oracle on multi-word fields",
          "All pairs of single operations {AppendError, Kill, Stop, IsDone, Errors}, curated two-operation threads and three-thread programs on plain, isolated, full and child scopes, plus child creation/closing after and racing with the parent's end; every schedule with <=3 (quick) / <=4 (thorough) preemptions for two threads and <=2/3 for three; oracle: no panic, error count and identity, done signal, Wait/Close report, no deadlock, no unordered conflicting access to the error slices.",
